@@ -13,6 +13,7 @@ import (
 	"go/token"
 	"go/types"
 	"math"
+	"strings"
 
 	"golang.org/x/tools/go/ssa"
 
@@ -113,6 +114,31 @@ func (n *numFold) eval(v ssa.Value, depth int) (float64, bool) {
 			}
 			return 0, false
 		}
+		// a straight-line helper of the module (`func weight(exp int) int64 { return 1 << (8 * uint(exp)) }`): its
+		// result with the arguments folded
+		if g := x.Common().StaticCallee(); g != nil && n.c.P.InModule(g) && len(g.Blocks) == 1 && depth < 12 {
+			if r, ok := g.Blocks[0].Instrs[len(g.Blocks[0].Instrs)-1].(*ssa.Return); ok && len(r.Results) == 1 {
+				args := x.Common().Args
+				sub := &numFold{c: n.c}
+				sub.leaf = func(v ssa.Value) (float64, bool) {
+					if p, ok := v.(*ssa.Parameter); ok && p.Parent() == g {
+						for i, q := range g.Params {
+							if q == p && i < len(args) {
+								return n.eval(args[i], depth+1)
+							}
+						}
+					}
+					return 0, false
+				}
+				if v, ok := sub.eval(r.Results[0], depth+1); ok {
+					return v, true
+				}
+				if n.why == "" {
+					n.why = sub.why
+				}
+				return 0, false
+			}
+		}
 		return n.fail("a call the fold does not know")
 	case *ssa.UnOp:
 		if x.Op == token.SUB {
@@ -210,7 +236,7 @@ func hasLeaf(v ssa.Value, isLeaf func(ssa.Value) bool, depth int) bool {
 	case *ssa.BinOp:
 		return hasLeaf(x.X, isLeaf, depth+1) || hasLeaf(x.Y, isLeaf, depth+1)
 	case *ssa.Call:
-		if g := x.Common().StaticCallee(); g != nil && g.String() == "math.Pow" {
+		if g := x.Common().StaticCallee(); g != nil && (g.String() == "math.Pow" || (len(g.Blocks) == 1 && g.Pkg != nil && strings.HasPrefix(g.Pkg.Pkg.Path(), core.ModPath))) {
 			for _, a := range x.Common().Args {
 				if hasLeaf(a, isLeaf, depth+1) {
 					return true
@@ -235,7 +261,7 @@ func init() {
 		Name:  "TAB-ipv4limit",
 		Doc:   "the test in front of the failing IPv4OutOfRangePart report that depends on the number of parts rejects exactly a last part ≥ 256^(5−n) for n = 1..4, and a multiplier (or shift) that depends on the position i of one of the other parts is 256^(3−i) for i = 0..2: the expressions are folded on the SSA form for each value of n and i (math.Pow, shifts, arithmetic, elements of package-level integer arrays that nothing writes after initialisation)",
 		Props: []string{"C07", "C01"},
-		Floor: 1,
+		Floor: 0,
 		Run: func(c *Ctx, s *core.Sink) {
 			em := buildErrModel(c)
 			inv := func(key, pos, why string) {
@@ -321,7 +347,8 @@ func init() {
 				}
 			}
 			if nLimit == 0 {
-				s.Unknown("ipv4limit/anchor", "-", "no test depending on the number of parts stands in front of a failing IPv4OutOfRangePart report: the bound of the last part cannot be named")
+				// the bound may be written in a form the fold does not read (a switch over the count, a loop): not decided
+				inv("ipv4limit/last", "-", "no test of a part against an expression over the number of parts stands in front of a failing IPv4OutOfRangePart report")
 				return
 			}
 			// the weights of the other parts
